@@ -63,7 +63,8 @@ def anchors():
     return {'Context.persist': Context.persist, 'Context.restore': Context.restore, 'Macro.persist': plasTeX.Macro.persist, 'Macro.restore': plasTeX.Macro.restore}
 
 
-TITLES = ['Intro', 'Results & more', 'A <b>bold</b> title', 'Übersicht', '', 'x' * 40, 'Wq12x Wq13x', '\\(a^2\\)']
+TITLES = ['Intro', 'Results & more', 'A <b>bold</b> title', 'Übersicht', '', 'x' * 40, 'Wq12x Wq13x', '\\(a^2\\)',
+          ' Getting started ', 'two  blanks', 'line\nbreak ', '\tTab']      # (rendered titles come with the blanks and line breaks of their templates)
 
 
 def gen_labels(r):
